@@ -153,6 +153,9 @@ def judge_stream(ctx, rng, p, b):
     rx = b.receiver()
     outcome = rx.drain(wire, frag=frag, cuts=cuts, banner=BANNER if p["banner"] else None,
                        hiccup=hiccups(rng, 0.3) if p["rx_hiccups"] else None)
+    if outcome[0] == "banner":
+        ctx.inconclusive("bench could not read its own identification line: %r" % (outcome[1],))
+        return
     ctx.count("streams_decoded")
     ctx.count("socket_hiccups_injected", rx.sock.hiccups + b.sock.hiccups)
     if p["banner"]:
